@@ -37,6 +37,16 @@ _operators: dict[str, Operator] = {
 }
 
 
+# Markers whose values are compared as versions (PEP 508); every other marker
+# is compared as a plain string, like packaging does.
+_VERSION_VALUED_MARKER_NAMES = {
+    "implementation_version",
+    "platform_release",
+    "python_full_version",
+    "python_version",
+}
+
+
 class UndefinedComparison(ValueError):
     pass
 
@@ -199,7 +209,7 @@ class MarkerExpression(SingleMarker):
                 rhs = {normalize_name(v) for v in rhs}
             else:
                 rhs = normalize_name(rhs)
-        if isinstance(rhs, str):
+        if isinstance(rhs, str) and self.name in _VERSION_VALUED_MARKER_NAMES:
             try:
                 # on the reversed path rhs is the environment value, so the
                 # specifier must be built from the operator as written
